@@ -328,6 +328,18 @@ def linsum(s, tags=False):
                 terms[k] = terms.get(k, 0) + sign * v * int(m.group(2))
             const[0] += sign * c * int(m.group(2))
             return
+        if t.startswith("&") and t.endswith("]"):
+            # address of an array element: &A[I] is A + I (byte-sized elements: the only pointer arithmetic compared this way)
+            depth = 0
+            for i in range(len(t) - 1, -1, -1):
+                if t[i] == "]":
+                    depth += 1
+                elif t[i] == "[":
+                    depth -= 1
+                    if depth == 0:
+                        add(t[1:i], sign)
+                        add(t[i + 1:-1], sign)
+                        return
         if t:
             terms[t] = terms.get(t, 0) + sign
     add(s, 1)
